@@ -1,3 +1,66 @@
+/-
+  Props/C02.lean — Outbound packets are spec-conformant and carry exactly what the user supplied.
+  Property theorems only (helper lemmas live in Proofs/).  Statements quantify over every value,
+  every step list and every sequence of buffer capacities; nothing here is sampled.
+-/
 import GV.Model.Encode
+import GV.Proofs.Vli
+import GV.Proofs.Encoder
 namespace GV.Props.C02
+open GV
+
+/-- The variable-length integer the client writes is the standard's Variable Byte Integer, for
+    every value the standard can express; larger values are refused, never truncated. -/
+theorem vli_is_standard (v : Nat) :
+    (v ≤ maxVli → encodeVli v = some (Spec.encVbi v)) ∧ (v > maxVli → encodeVli v = none) :=
+  ⟨encodeVli_eq_spec v, (encodeVli_none_iff v).2⟩
+
+/-- An independent decoder (written from the OASIS text) reads back every length the client writes,
+    whatever follows it in the stream. -/
+theorem vli_round_trip_independent (v : Nat) (rest : Bytes) (h : v ≤ maxVli) :
+    ∃ bs, encodeVli v = some bs ∧ Spec.decVbi (bs ++ rest) = some (v, rest) :=
+  ⟨Spec.encVbi v, encodeVli_eq_spec v h, specDecVbi_encVbi v rest h⟩
+
+/-- The length function used for all Remaining Length / Property Length computations agrees with
+    the number of bytes actually written. -/
+theorem vli_size_matches (v : Nat) (h : v ≤ maxVli) :
+    ∃ bs, encodeVli v = some bs ∧ vliSize v = some bs.length :=
+  ⟨Spec.encVbi v, encodeVli_eq_spec v h, vliSize_eq_length v h⟩
+
+/-- Chunking invariance of the resumable encoder: for every step list that can be encoded at all and
+    every sequence of buffers (any capacity, any prefill) each leaving at least 4 free bytes, the
+    concatenation of the chunks handed to the socket is the same byte string, no call fails, and
+    `stepsWeight steps + 1` calls always suffice (termination). -/
+theorem encoder_chunk_invariant (steps : List Step) (caps : List (Nat × Nat)) (bs : Bytes)
+    (h : flattenSteps steps = some bs) (hc : ∀ c ∈ caps, 4 ≤ capFree c) :
+    (encodeRun (stepsWeight steps + 1) steps caps []).2 = false ∧
+    (encodeRun (stepsWeight steps + 1) steps caps []).1.flatten = bs := by
+  have := encodeRun_correct (stepsWeight steps + 1) steps caps [] bs h hc (by omega)
+  simpa using this
+
+/-- Two different buffer sequences give the same stream. -/
+theorem encoder_stream_independent_of_buffers (steps : List Step) (caps₁ caps₂ : List (Nat × Nat)) (bs : Bytes)
+    (h : flattenSteps steps = some bs) (h₁ : ∀ c ∈ caps₁, 4 ≤ capFree c) (h₂ : ∀ c ∈ caps₂, 4 ≤ capFree c) :
+    (encodeRun (stepsWeight steps + 1) steps caps₁ []).1.flatten =
+    (encodeRun (stepsWeight steps + 1) steps caps₂ []).1.flatten := by
+  rw [(encoder_chunk_invariant steps caps₁ bs h h₁).2, (encoder_chunk_invariant steps caps₂ bs h h₂).2]
+
+/-- No call writes past the space it was given (so the output buffer is never resized). -/
+theorem encoder_respects_capacity (steps : List Step) (free : Nat) :
+    (encodeCall steps free).1.length ≤ free :=
+  encodeCall_bound steps free
+
+/-- Non-vacuity: a concrete PUBLISH with a 9-byte payload through 4- and 5-byte buffers meets the
+    hypotheses of `encoder_chunk_invariant` and produces its 19 bytes. -/
+def demoPublish : Publish :=
+  { topic := [97, 47, 98], qos := 1, packetId := 7, payload := some [1, 2, 3, 4, 5, 6, 7, 8, 9] }
+
+example :
+    (do let steps ← publishSteps5 demoPublish {}
+        let bs ← flattenSteps steps
+        pure ((encodeRun (stepsWeight steps + 1) steps [(4, 0), (5, 1)] []).1.flatten == bs && bs.length == 19
+              && ([(4, 0), (5, 1)] : List (Nat × Nat)).all (fun c => decide (4 ≤ capFree c))))
+      = some true := by
+  decide
+
 end GV.Props.C02
